@@ -247,6 +247,9 @@ class Logix( Message_Router ):
             assert endmax <= endactual, \
                 "Attribute %s capacity exceeded; writing %d elements beginning at index %d" % (
                     attribute, len( data[context].data ), beg )
+            assert data.service == self.WR_FRG_RPY or endmax == endactual, \
+                "Attribute %s Write Tag of %d elements carries %d" % (
+                    attribute, elm, len( data[context].data ))
         end			= min( endactual, endmax )
         log.info( "offset: {off:6d} siz: {siz:3d}, beg: {beg:3d}, endadv: {endadv:3d}, end: {end:3d}, endmax: {endmax:3d}, offremains: {offremains}".format(
             off=off, siz=siz, beg=beg, end=end, endadv=endadv, endmax=endmax, offremains=offremains ))
